@@ -34,7 +34,13 @@ fn pool() -> Vec<MapSpec> {
 }
 
 fn settings_pool() -> Vec<Setting> {
-    vec![Setting::nm(), Setting::bits(settings::HD | settings::HR | settings::DT), Setting { rate: Some(0.8), lazer: Some(false), ..Setting::mods(ModSpec::Random(Some(42.0))) }]
+    vec![
+        Setting::nm(),
+        Setting::bits(settings::HD | settings::HR | settings::DT),
+        Setting { rate: Some(0.8), lazer: Some(false), ..Setting::mods(ModSpec::Random(Some(42.0))) },
+        // lazer Random without a seed: whatever the library does with it, it must do the same every time
+        Setting::mods(ModSpec::Random(None)),
+    ]
 }
 
 #[derive(Clone, Copy, Debug, PartialEq, Eq)]
@@ -53,6 +59,9 @@ enum Kind1 {
     ReuseBuilders(u8),
     /// the same map under a different conversion-relevant mod: mania by reference with the given key count
     ManiaKeys(u8),
+    /// two gradual calculators (this map and the partner map, both for the given target mode) stepped alternately on this
+    /// thread: each must yield what it yields when walked alone
+    LockStep(u8, u8),
 }
 
 #[derive(Clone, Copy, Debug, PartialEq, Eq)]
@@ -104,6 +113,15 @@ fn all_ops(specs: &[MapSpec], rich: bool) -> Vec<Op> {
         if s.mode == 0 {
             for k in if rich { vec![1u8, 4, 7, 9] } else { vec![4u8, 7] } {
                 v.push(Op { text: t, kind: Kind1::ManiaKeys(k) });
+            }
+        }
+        // partner = the next map that can reach the same target mode
+        for &m in &tg {
+            for (pi, ps) in specs.iter().enumerate() {
+                if pi != ti && targets_of(ps.mode).contains(&m) && (rich || pi == (ti + 1) % specs.len() || ps.mode == m) {
+                    v.push(Op { text: t, kind: Kind1::LockStep(m, pi as u8) });
+                    break;
+                }
             }
         }
     }
@@ -171,6 +189,41 @@ impl World {
                 let st = api::strains(&d, map, 3);
                 let p = Performance::new(map).mods(bits).try_mode(gen::game_mode(3)).ok().map(|p| p.accuracy(98.0).calculate());
                 format!("{conv:?} {a:?} {st:?} {p:?}")
+            }
+            Kind1::LockStep(m, partner) => {
+                let d = self.setts[1].difficulty(gen::game_mode(m));
+                let other = &self.maps[partner as usize];
+                let alone_a: Vec<_> = api::gradual(d.clone(), map, m).expect("reachable").collect();
+                let alone_b: Vec<_> = api::gradual(d.clone(), other, m).expect("reachable").collect();
+                let (mut ga, mut gb) = (api::gradual(d.clone(), map, m).expect("reachable"), api::gradual(d.clone(), other, m).expect("reachable"));
+                let (mut va, mut vb) = (Vec::new(), Vec::new());
+                loop {
+                    let (x, y) = (ga.next(), gb.next());
+                    if x.is_none() && y.is_none() {
+                        break;
+                    }
+                    va.extend(x);
+                    vb.extend(y);
+                }
+                if !same(&va, &alone_a) || !same(&vb, &alone_b) {
+                    impure = Some(format!("two gradual calculators (maps #{} and #{partner}, target mode {m}) stepped alternately on one thread yield different values than each walked alone", op.text));
+                }
+                // performance too
+                let st = ScoreState { max_combo: 2, n300: 1, n100: 1, ..ScoreState::new() };
+                let alone_pa: Vec<_> = { let mut g = api::gradual_perf(d.clone(), map, m).expect("reachable"); std::iter::from_fn(|| g.next(st.clone())).collect() };
+                let (mut pa, mut pb) = (api::gradual_perf(d.clone(), map, m).expect("reachable"), api::gradual_perf(d, other, m).expect("reachable"));
+                let mut vpa = Vec::new();
+                loop {
+                    let (x, y) = (pa.next(st.clone()), pb.next(st.clone()));
+                    if x.is_none() && y.is_none() {
+                        break;
+                    }
+                    vpa.extend(x);
+                }
+                if impure.is_none() && !same(&vpa, &alone_pa) {
+                    impure = Some(format!("two gradual performance calculators (maps #{} and #{partner}, mode {m}) stepped alternately yield different values than walked alone", op.text));
+                }
+                format!("{va:?}")
             }
             Kind1::ReuseBuilders(_) => {
                 // the same Difficulty value called twice, a cloned Performance calculated twice
@@ -327,7 +380,8 @@ fn main() {
     for (i, r) in &results {
         match r {
             None => {
-                ctx.machinery_error(format!("fresh process for op {:?} failed", ops[*i]));
+                // the subject (not the engine) failed: the operation panicked or aborted in a fresh process
+                ctx.add_violation(vh::ctx::Violation { class: "panic".into(), universe: "fresh-process-table".into(), idx: *i as u64, msg: format!("op {:?} did not produce a value as the only operation of a fresh process (panic / abort)", ops[*i]) });
                 table_ok = false;
                 table.push(0);
             }
